@@ -177,6 +177,13 @@ def run_solve(case, out):
     kw = {}
     if case["method"] is not None: kw["method"] = case["method"]
     if case["rtol"] is not None: kw["rtol"] = f(case["rtol"]); kw["atol"] = f(case["atol"])
+    # per-component tolerances in the three sequence forms SciPy users pass
+    if case.get("rtol_vec") is not None:
+        v = [f(x) for x in case["rtol_vec"]]
+        kw["rtol"] = [v, np.array(v, dtype=float), tuple(v)][case["id"] % 3]
+    if case.get("atol_vec") is not None:
+        v = [f(x) for x in case["atol_vec"]]
+        kw["atol"] = [np.array(v, dtype=float), tuple(v), v][case["id"] % 3]
     for k in ("first_step", "max_step"):
         if case[k] is not None: kw[k] = f(case[k])
     if case["max_steps"] is not None: kw["max_steps"] = case["max_steps"]
